@@ -31,6 +31,8 @@ func main() {
 		err = record(os.Args[2:])
 	case "replay":
 		err = replay(os.Args[2:])
+	case "replay-prims":
+		err = replayPrims(os.Args[2:])
 	case "rerun":
 		err = rerun(os.Args[2:])
 	case "selftest":
